@@ -88,6 +88,7 @@ type scn struct {
 	flow       int                 // 0 full handler 1 accessor sequence
 	undefined  map[string]bool     // named by a requirement but absent from securityDefinitions (a typo or a rename in the description)
 	front      string              // flow 2: what the application middleware does before the operation executor: A = Authorize, R = ResetAuth
+	lateReg    bool                // authenticators and the authorizer are registered after NewContext, before the handler is built
 	door       int                 // which handler constructor of the Context: 0 APIHandler 1 APIHandlerSwaggerUI 2 APIHandlerRapiDoc 3 RoutesHandler
 	reauth     bool                // flow 1: after a successful Authorize the caller drops the result (ResetAuth) and authorizes again
 }
@@ -162,6 +163,7 @@ func generate(t *kernel.Tape) *scn {
 		s.reauth = t.Bool(3, "authorize-again-after-reset")
 	}
 	s.door = t.Weighted("handler-constructor", 3, 1, 1, 1)
+	s.lateReg = t.Bool(4, "security-registered-after-the-context-exists")
 	return s
 }
 
@@ -245,53 +247,62 @@ func (prop) Run(t *testing.T, tape *kernel.Tape, sc kernel.Scenario) *kernel.Res
 	u := simapi.NewUntyped(doc)
 	u.RegisterConsumer("application/json", &simapi.Consumer{W: world, Tag: "json", Inner: runtime.JSONConsumer()})
 	u.RegisterProducer("application/json", &simapi.Producer{W: world, Tag: "json", Inner: runtime.JSONProducer()})
-	for _, n := range s.schemes {
-		if !s.registered[n] {
-			continue
-		}
-		n := n
-		u.RegisterAuth(n, &simapi.Auth{W: world, Scheme: n, OnCall: func() {
-			consultations++
-			if s.cancelAt > 0 && consultations == s.cancelAt && cancelRequest != nil {
-				cancelRequest() // the client went away while credentials were being checked
+	registerSecurity := func() {
+		for _, n := range s.schemes {
+			if !s.registered[n] {
+				continue
 			}
-		}, Outcome: func(_ int, _ *http.Request, required []string) simapi.AuthOutcome {
-			switch s.outcome[n] {
-			case oAccept:
-				// the presented credential is good for s.granted[n] only
-				for _, sc := range required {
-					if !containsStr(s.granted[n], sc) {
-						return simapi.AuthOutcome{Applies: true, Err: errors.New(http.StatusForbidden, "scheme %s: scope %s not granted", n, sc)}
-					}
+			n := n
+			u.RegisterAuth(n, &simapi.Auth{W: world, Scheme: n, OnCall: func() {
+				consultations++
+				if s.cancelAt > 0 && consultations == s.cancelAt && cancelRequest != nil {
+					cancelRequest() // the client went away while credentials were being checked
 				}
-				return simapi.AuthOutcome{Applies: true, Principal: "P-" + n}
-			case oNil:
-				return simapi.AuthOutcome{Applies: true}
-			case oReject:
-				return simapi.AuthOutcome{Applies: true, Err: rejectErr(s.errKind[n], n)}
-			case oRejectWithPrincipal:
-				return simapi.AuthOutcome{Applies: true, Principal: "locked-" + n, Err: rejectErr(s.errKind[n], n)}
-			}
-			return simapi.AuthOutcome{}
-		}})
+			}, Outcome: func(_ int, _ *http.Request, required []string) simapi.AuthOutcome {
+				switch s.outcome[n] {
+				case oAccept:
+					// the presented credential is good for s.granted[n] only
+					for _, sc := range required {
+						if !containsStr(s.granted[n], sc) {
+							return simapi.AuthOutcome{Applies: true, Err: errors.New(http.StatusForbidden, "scheme %s: scope %s not granted", n, sc)}
+						}
+					}
+					return simapi.AuthOutcome{Applies: true, Principal: "P-" + n}
+				case oNil:
+					return simapi.AuthOutcome{Applies: true}
+				case oReject:
+					return simapi.AuthOutcome{Applies: true, Err: rejectErr(s.errKind[n], n)}
+				case oRejectWithPrincipal:
+					return simapi.AuthOutcome{Applies: true, Principal: "locked-" + n, Err: rejectErr(s.errKind[n], n)}
+				}
+				return simapi.AuthOutcome{}
+			}})
+		}
+		switch s.authz {
+		case 1, 2, 3, 4:
+			u.RegisterAuthorizer(&simapi.Authorizer{W: world, Decide: func(int, *http.Request, any) error {
+				switch s.authz {
+				case 4:
+					panic("authorizer: principal of an unexpected type")
+				case 2:
+					return stderrors.New("authorizer says no")
+				case 3:
+					return errors.New(402, "payment required")
+				}
+				return nil
+			}})
+		}
 	}
-	switch s.authz {
-	case 1, 2, 3, 4:
-		u.RegisterAuthorizer(&simapi.Authorizer{W: world, Decide: func(int, *http.Request, any) error {
-			switch s.authz {
-			case 4:
-				panic("authorizer: principal of an unexpected type")
-			case 2:
-				return stderrors.New("authorizer says no")
-			case 3:
-				return errors.New(402, "payment required")
-			}
-			return nil
-		}})
+	if !s.lateReg {
+		registerSecurity()
 	}
 	u.RegisterOperation("POST", "/secure/{id}", &simapi.Handler{W: world, Op: "secured"})
 	u.RegisterOperation("GET", "/open", &simapi.Handler{W: world, Op: "open"})
 	ctx := middleware.NewContext(doc, u, nil)
+	if s.lateReg {
+		// legal, if rare: the Context exists first, authenticators and authorizer are registered before the first handler is built
+		registerSecurity()
+	}
 	// the same pipeline behind each of the doors the Context offers
 	mkHandler := func(b middleware.Builder) http.Handler {
 		switch s.door {
